@@ -30,6 +30,9 @@ type C13Case struct {
 	Cut     int    `json:"cut"`
 	Start   uint64 `json:"start"` // index of the first entry (a start other than the empty tail's base re-bases it)
 	Again   bool   `json:"again"` // after the truncation append once more and truncate everything
+	// Loaders: readers parked between loading the current state and taking their reference on it
+	// (hook acquireState.loaded), i.e. the truncation publishes its new state under their feet
+	Loaders []int `json:"loaders,omitempty"`
 }
 
 func dirVsMeta(fs *simfs.FS) (extra, missing []string) {
@@ -85,13 +88,17 @@ func runC13(c C13Case) (res common.Result) {
 	ctl.BlockWait = time.Millisecond
 	// readers park only at their ReadAt; the truncating goroutine never parks
 	ctl.Filter = func(worker, point string) bool {
-		return strings.HasPrefix(worker, "r") && worker != "trunc" && point == "io:ReadAt"
+		return (strings.HasPrefix(worker, "r") && point == "io:ReadAt") || (strings.HasPrefix(worker, "l") && point == "acquireState.loaded")
 	}
 	fs.SetHook(func(ev simfs.Event) (int, error) {
 		ctl.Point("io:" + string(ev.Kind))
 		return -1, nil
 	})
 	wal.SetVerifHook(nil)
+	if len(c.Loaders) > 0 {
+		wal.SetVerifHook(func(name string) { ctl.Point(name) })
+		defer wal.SetVerifHook(nil)
+	}
 	defer fs.SetHook(nil)
 
 	type rres struct {
@@ -99,11 +106,16 @@ func runC13(c C13Case) (res common.Result) {
 		err error
 		log raft.Log
 	}
-	rr := make([]*rres, len(c.Readers))
+	rr := make([]*rres, len(c.Readers), len(c.Readers)+len(c.Loaders))
 	for i, off := range c.Readers {
 		r := &rres{idx: m.First + uint64(off)%m.Len()}
 		rr[i] = r
 		ctl.Go(fmt.Sprintf("r%d", i), func() { r.err = w.GetLog(r.idx, &r.log) })
+	}
+	for i, off := range c.Loaders {
+		r := &rres{idx: m.First + uint64(off)%m.Len()}
+		rr = append(rr, r)
+		ctl.Go(fmt.Sprintf("l%d", i), func() { r.err = w.GetLog(r.idx, &r.log) })
 	}
 	// release every reader from "start" so that each parks inside its ReadAt
 	// (start is not filtered for readers? it is: Filter only parks io:ReadAt) -> they run straight to ReadAt
@@ -221,6 +233,9 @@ func runC13(c C13Case) (res common.Result) {
 	if pinned > 0 {
 		res.Classes = append(res.Classes, "truncation-with-pinned-reader")
 	}
+	if len(c.Loaders) > 0 {
+		res.Classes = append(res.Classes, "truncation-under-reader-between-load-and-acquire")
+	}
 	if len(before) > len(fs.Names()) {
 		res.Classes = append(res.Classes, "files-deleted")
 	}
@@ -238,6 +253,9 @@ func TestC13Pinned(t *testing.T) {
 		c.Cut = rapid.IntRange(0, 13).Draw(t, "cut")
 		c.Start = rapid.SampledFrom([]uint64{1, 1, 2, 100, 1 << 33}).Draw(t, "start")
 		c.Again = rapid.Bool().Draw(t, "again")
+		for i := 0; i < rapid.IntRange(0, 2).Draw(t, "nl"); i++ {
+			c.Loaders = append(c.Loaders, rapid.IntRange(0, 13).Draw(t, "loff"))
+		}
 		if rapid.IntRange(0, 3).Draw(t, "short") == 0 {
 			c.N = rapid.IntRange(1, 3).Draw(t, "shortN") // stays in the first segment: no rotation before the truncation
 		}
